@@ -408,7 +408,10 @@ void futexReset() {
 }
 } // namespace vrt
 
-extern "C" long syscall(long number, ...) {
+// no_sanitize_address: the interposer reads six variadic longs unconditionally; callers that pass fewer
+// (libstdc++'s __cxa_guard_acquire passes four) make the extra reads land in the caller's frame,
+// which ASan would report as a stack-buffer-underflow inside this function.
+extern "C" __attribute__((no_sanitize_address)) long syscall(long number, ...) {
   using namespace vrt;
   va_list ap;
   va_start(ap, number);
